@@ -158,6 +158,48 @@ def _random_job(k):
     return {"k": k, "bad": bad, "case": {"ny": ny, "wingbox": wing}}
 
 
+def _group_job(k):
+    """The functionals GROUP (what a structural or aerostructural model contains) for every combination of
+    fem_model_type x exact_failure_constraint: `vonmises` is the stress component's output and `failure` is
+    stress / allowable - 1 element by element when the exact constraint is requested, the KS aggregate otherwise."""
+    from openaerostruct.structures.spatial_beam_functionals import SpatialBeamFunctionals
+
+    rng = np.random.default_rng(seed() * 157 + k)
+    ny = int(rng.integers(2, 8))
+    wing = bool(k % 2)
+    exact = bool((k // 2) % 2)
+    ne = ny - 1
+    nodes = np.zeros((ny, 3))
+    nodes[:, 1] = np.cumsum(np.concatenate([[0], rng.uniform(0.5, 3, ny - 1)]))
+    nodes[:, 0] = 0.4 * nodes[:, 1]
+    E, G = 7e10, 3e10
+    sigma = float(rng.choice([3e8, 5e8 / 2.5, 4.2e8 / 1.5]))  # the allowable the user supplies (yield stress / safety factor)
+    s = _surf(ny, "wingbox" if wing else "tube", E, G, sigma)
+    s["exact_failure_constraint"] = exact
+    inp = {"nodes": nodes, "disp": np.concatenate([rng.normal(0, 3e-2, (ny, 3)), rng.normal(0, 3e-2, (ny, 3))], axis=1)}
+    if wing:
+        inp.update({"Qz": rng.uniform(1e-4, 1e-2, ne), "J": rng.uniform(1e-5, 1e-3, ne), "A_enc": rng.uniform(0.05, 0.5, ne), "spar_thickness": rng.uniform(2e-3, 2e-2, ne), "htop": rng.uniform(0.05, 0.3, ne),
+                    "hbottom": rng.uniform(0.05, 0.3, ne), "hfront": rng.uniform(0.1, 0.6, ne), "hrear": rng.uniform(0.1, 0.6, ne)})
+    else:
+        inp.update({"radius": rng.uniform(0.05, 0.4, ne), "thickness": rng.uniform(0.005, 0.04, ne)})
+    out = run_comp(SpatialBeamFunctionals(surface=s), inp, ["vonmises", "failure"])
+    vm, f = out["vonmises"], out["failure"]
+    bad = []
+    allow = sigma
+    if vm.shape != (ne, 4 if wing else 2) or not np.all(np.isfinite(vm)) or float(np.max(vm)) <= 0:
+        bad.append("group:vonmises_shape_or_value")
+    elif exact:
+        want = vm / allow - 1
+        if f.shape != want.shape or not (float(np.max(np.abs(f - want))) <= 1e-12 * max(1.0, float(np.max(np.abs(want))))):
+            bad.append("group:exact_failure_is_not_stress_over_allowable_minus_one")
+    else:
+        fmax = float(np.max(vm / allow - 1))
+        ks = float(np.ravel(f)[0])
+        if np.size(f) != 1 or not np.isfinite(ks) or ks < fmax - 1e-12 * max(1.0, abs(fmax)) or ks > fmax + np.log(vm.size) / 100.0 + 1e-12 * max(1.0, abs(fmax)):
+            bad.append("group:ks_failure_outside_bounds")
+    return {"k": k, "bad": bad, "case": {"ny": ny, "wingbox": wing, "exact": exact, "allowable": sigma}}
+
+
 def _wingbox_section_job(k):
     """Wingbox section properties: the upper and the lower skin are INDEPENDENT polylines (same number of stations, same spar
     locations).  Describing the same piecewise-linear section with both skins re-sampled on the union of the stations must
@@ -281,6 +323,10 @@ def run(tier, only=None):
             R.violation(sig, {"case": r["case"], "i": i})
     for r in check_exc(pmap(_random_job, range(40 if tier == "quick" else 400))):
         R.case(["random", r["k"]], True, section="random")
+        for sig in r["bad"]:
+            R.violation(sig, {"k": r["k"], "case": r["case"]})
+    for r in check_exc(pmap(_group_job, range(24 if tier == "quick" else 240))):
+        R.case(["group", r["k"]], True, sample=r["case"] if r["k"] % 11 == 0 else None, section="group")
         for sig in r["bad"]:
             R.violation(sig, {"k": r["k"], "case": r["case"]})
     for r in check_exc(pmap(_wingbox_section_job, range(24 if tier == "quick" else 240))):
